@@ -177,10 +177,13 @@ def clobber (m : KMap Addr (SlotMem V)) : List Addr → KMap Addr (SlotMem V)
   | [] => m
   | a :: as => clobber (m.set a junk) as
 
-/-- the list neighbours of x in l (the nodes whose link fields an unlink of x writes) -/
+/-- the list neighbours of (the first occurrence of) x in l: the nodes whose link fields an unlink of
+    x writes.  Free lists are duplicate-free, so the first occurrence is the only one. -/
 def nbrs : List Nat → Nat → List Nat
   | a :: b :: rest, x =>
-    (if b = x then [a] else []) ++ (if a = x then [b] else []) ++ nbrs (b :: rest) x
+    if a = x then [b]
+    else if b = x then a :: (match rest with | c :: _ => [c] | [] => [])
+    else nbrs (b :: rest) x
   | _, _ => []
 
 /-- the slot at the head of a global free list (its `prev` field is written when the head changes) -/
